@@ -538,6 +538,8 @@ impl FromPlan for Stats {
 
 #[Object(cache_control(max_age = 50))]
 impl Cat {
+    /// field-level hint on a field that is also reachable through the `Node` interface (C20)
+    #[graphql(cache_control(max_age = 2))]
     async fn id(&self, ctx: &Context<'_>) -> Result<ID> {
         plan(ctx, "Cat", self.0, "id", args![]).await
     }
@@ -744,7 +746,8 @@ impl Subscription {
                     s.gate(format!("ev:{key}:{k}")).await;
                 }
                 env.log.push(Ek::Stream, &key, "Subscription", "ticks", None, &format!("event {k}"));
-                Some((Tick(event_id(env.world.seed, "ticks", k)), k + 1))
+                let idroot = if env.world.event_ids_by_key { key.as_str() } else { "ticks" };
+                Some((Tick(event_id(env.world.seed, idroot, k)), k + 1))
             }
         }))
     }
@@ -763,7 +766,8 @@ impl Subscription {
                     s.gate(format!("ev:{key}:{k}")).await;
                 }
                 env.log.push(Ek::Stream, &key, "Subscription", "events", None, &format!("event {k}"));
-                let id = event_id(env.world.seed, "events", k);
+                let idroot = if env.world.event_ids_by_key { key.as_str() } else { "events" };
+                let id = event_id(env.world.seed, idroot, k);
                 let pet = match (kind, id % 3) {
                     (_, 0) => None,
                     (Some(PetKind::Cat), _) => Some(Pet::Cat(Cat(id))),
